@@ -438,6 +438,29 @@ def leaf_count(h: Heap):
     return _LEAFCNT[key]
 
 
+_HEIGHT: dict = {}
+
+
+def height_spec(h: Heap):
+    """(Ht, HtL): Ht(n) = 0 for a node without children, else HtL(n, clen(n)) with
+         HtL(n,1) = 1 + Ht(child(n,0))      HtL(n,i+1) = max(HtL(n,i), 1 + Ht(child(n,i)))   (1 <= i < clen(n))
+    i.e. the longest downward path.  Nothing is said about its sign: Ht >= 0 holds on finite trees by induction, which the
+    solver cannot do -- clauses that need it say max(0, Ht)."""
+    key = (h.syms["_children"].name(), h.syms["llen"].name(), h.syms["litem"].name())
+    if key not in _HEIGHT:
+        k = len(_HEIGHT)
+        Ht = Function(f"Ht<{k}>", Ref, I)
+        HtL = Function(f"HtL<{k}>", Ref, I, I)
+        n, i = Const(f"n!ht{k}", Ref), Const(f"i!ht{k}", I)
+        SPEC_AXIOMS.extend([
+            ForAll([n], Ht(n) == If(h.clen(n) == 0, 0, HtL(n, h.clen(n))), patterns=[Ht(n)]),
+            ForAll([n], Implies(h.clen(n) >= 1, HtL(n, 1) == 1 + Ht(h.child(n, 0))), patterns=[HtL(n, 1)]),
+            ForAll([n, i], Implies(And(1 <= i, i < h.clen(n)), HtL(n, i + 1) == If(HtL(n, i) >= 1 + Ht(h.child(n, i)), HtL(n, i), 1 + Ht(h.child(n, i)))), patterns=[HtL(n, i + 1)]),
+        ])
+        _HEIGHT[key] = (Ht, HtL)
+    return _HEIGHT[key]
+
+
 _FILT: dict = {}
 
 
